@@ -80,7 +80,7 @@ def run(F, R, tier):
     R.ob("C11-c", "the deciding range is the export wrapper's, else the declaration's own", ok, "public_range = %s" % (expr_text(pr[0]["init"]) if pr else "?"), td["file"])
     # ---------------- C11-d ------------------------------------------------
     ti = F.body(T + "transform_item")
-    rt = [n for n in ti["_nodes"] if n.get("k") == "MethodCall" and n["name"] == "retain" and peel(n["recv"]).get("field") == "specifiers"]
+    rt = [n for n in ti["_nodes"] if n.get("k") == "MethodCall" and n["name"] == "retain" and field_of(n["recv"]) == "specifiers"]
     R.floor("C11-d specifier filters", len(rt), 2)
     for r in rt:
         clo = peel(r["args"][0])
